@@ -418,6 +418,7 @@ func (c *VCtx) acquire(fr *Frame, st *State, lock *Term, write bool, pos token.P
 		h.specs = append(h.specs, &monitorRef{spec: sp, obj: o.obj, objT: o.typ})
 	}
 	st.held[lock.S] = h
+	c.lmAcquire(st, lock)
 	// assume the invariants
 	for _, m := range h.specs {
 		sc := c.objScope(m, st, st)
@@ -462,6 +463,7 @@ func (c *VCtx) release(fr *Frame, st *State, lock *Term, pos token.Pos) {
 		return
 	}
 	c.csCount++
+	c.lmRelease(st, lock, pos)
 	for _, m := range h.specs {
 		sc := c.objScope(m, st, m.entry)
 		for i, inv := range m.spec.Invs {
@@ -673,6 +675,17 @@ func (c *VCtx) ghostAssign(fr *Frame, st *State, ct *FuncContract, g *GhostStmt,
 				Or(Eq(old, T(old.Sort, gi.zero)), Eq(v, old)), nil)
 		}
 		c.setHeap(st, name, Store(h, k, v))
+	case *EIdent:
+		lm := c.localMon
+		if lm == nil || lm.lockRef == nil {
+			unsup("ghost assignment to %s: no local monitor", l.Name)
+		}
+		hn, hs, ok := c.lmGhostHeap(lm, l.Name)
+		if !ok {
+			unsup("ghost assignment to unknown local ghost %s", l.Name)
+		}
+		h := c.heap(st, hn, hs)
+		c.setHeap(st, hn, Store(h, lm.lockRef, v))
 	default:
 		unsup("ghost assignment target %T", lhs)
 	}
